@@ -8,13 +8,14 @@ from .mirparse import Unsupported
 
 
 class UType:
-    def __init__(self, name, decl=None, out=None, deps=(), docs=None, generics=()):
+    def __init__(self, name, decl=None, out=None, deps=(), docs=None, generics=(), without_generics=None):
         self.name = list(name)            # chars (may be symbolic)
         self.decl = list(decl) if decl is not None else None
         self.out = list(out) if out is not None else None   # relative output path, None = not exportable
         self.deps = list(deps)            # indices visited by visit_dependencies, in order (repeats allowed)
         self.docs = list(docs) if docs is not None else None
         self.generics = list(generics)
+        self.without_generics = without_generics      # index of the dummy-parameter form `T::WithoutGenerics` (None: the type itself)
 
 
 def some(v):
@@ -37,7 +38,11 @@ class Universe:
         m.stubs.append((re.compile(r'^TypeId::of::<(.*)>$'), lambda mm, c, a: ('typeid', re.match(r'^TypeId::of::<(.*)>$', c).group(1))))
         m.stubs.append((re.compile(r'^(std::any::)?type_name::<(.*)>$'),
                         lambda mm, c, a: ValRef(RStr([ord(x) for x in re.search(r'type_name::<(.*)>$', c).group(1)]))))
-        m.type_rewrites = list(m.type_rewrites) + [(re.compile(r'<(U\d+) as (?:crate::)?TS>::WithoutGenerics'), r'\1'),
+        def wg(a):
+            i = int(a.group(1)[1:])
+            t = self.types[i] if i < len(self.types) else None
+            return f'U{t.without_generics}' if t is not None and t.without_generics is not None else a.group(1)
+        m.type_rewrites = list(m.type_rewrites) + [(re.compile(r'<(U\d+) as (?:crate::)?TS>::WithoutGenerics'), wg),
                                                      (re.compile(r'<(U\d+) as (?:crate::)?TS>::OptionInnerType'), r'\1')]
         prev = m.const_hook
 
